@@ -101,6 +101,22 @@ class Bounds:
             if cap is not None:
                 pb, term = cap
                 return Bounds(pb).rng(term, depth + 1)
+        if t[0] == 'param' and self.b.kind != 'Closure' and self.b.local_ty(t[1]) == 'usize' and str(self.b.raw.get('vis')).startswith('Restricted'):
+            # index parameter of a private helper: the hull of what its callers pass (every call site must be bounded)
+            prog = self.b.prog
+            sites = [(cb, bi, ct) for cb in prog.bodies.values() for bi, ct in cb.calls() if ct['callee'].get('resolved') == self.b.path]
+            fn_refs = any(self.b.path in cb.fn_refs() for cb in prog.bodies.values())
+            if sites and not fn_refs and depth < 6:
+                lo = hi = None
+                for cb, bi, ct in sites:
+                    if t[1] - 1 >= len(ct['args']):
+                        return None
+                    r = Bounds(cb).rng(cb.op_term(ct['args'][t[1] - 1], (bi, None)), depth + 3)
+                    if r is None:
+                        return None
+                    lo = r[0] if lo is None else min(lo, r[0])
+                    hi = r[1] if hi is None else max(hi, r[1])
+                return (lo, hi)
         if t[0] == 'bin' and t[1] in ('Add', 'Sub', 'Mul'):
             a, b = self.rng(t[2], depth + 1), self.rng(t[3], depth + 1)
             if a is None or b is None:
